@@ -185,3 +185,24 @@ def lin_ma(k: float, s: float) -> float:
 def neg_sq1(a: float) -> float:
     """always negative coefficient"""
     return -(0.5 * a * a + 0.1)
+
+
+# mass-action laws for label networks
+def ma0(k: float) -> float:
+    return k
+
+
+def ma1(k: float, s: float) -> float:
+    return k * s
+
+
+def ma2(k: float, s1: float, s2: float) -> float:
+    return k * s1 * s2
+
+
+def ma1mod(k: float, s: float, m: float) -> float:
+    return k * s * m / (1.0 + m)
+
+
+def tot2(a: float, b: float) -> float:
+    return a + 2.0 * b
